@@ -33,7 +33,7 @@ BOUNDS = {"quick": "session of 3 client messages (getProperties, enableBLOB, new
 OUTSIDE = "real sockets; faults inside the event loop itself; more than 3 concurrent connections"
 ASSUMPTIONS = ["VLoop ordering contract (validated against the real loop every run)", "fake streams with the public surface the handlers use"]
 
-FAULTS = ("eof", "read-error", "eof-inside-message", "junk-then-eof", "handler-exception", "peer-write-error")
+FAULTS = ("eof", "read-error", "eof-inside-message", "junk-then-eof", "handler-exception", "peer-write-error", "connection-reset")
 
 
 def session_bytes():
@@ -50,6 +50,8 @@ def script_with_fault(fault, step, as_text):
         items.append(None)
     elif fault == "read-error":
         items.append(ReadError("connection reset"))
+    elif fault == "connection-reset":
+        items.append(ConnectionResetError("connection reset by peer"))
     elif fault == "eof-inside-message":
         nxt = data[step] if step < len(data) else data[0]
         items.append(conv(nxt[: len(nxt) // 2]))
@@ -235,7 +237,7 @@ def tty():
         router.register_device(Boom())
         dev = Dev()
         router.register_device(dev)
-        fault = d.choice(FAULTS[:5], "fault")
+        fault = d.choice(FAULTS[:5] + FAULTS[6:], "fault")
         step = d.int(0, 3, "step")
         out = FakeTextOut(va, [])
         h = ConnectionHandler(router, FakeReader(va, script_with_fault(fault, step, True)), out)
